@@ -192,6 +192,16 @@ func parseTimeLit(s string) (time.Time, bool) {
 	return time.Time{}, false
 }
 
+// sqliteURI: a file: URI for a path that may hold characters with a meaning in URIs (the harness's own read-only access)
+func sqliteURI(path string) string {
+	r := strings.NewReplacer("%", "%25", "#", "%23", "?", "%3f")
+	return "file:" + r.Replace(path)
+}
+
+// oddDirs: directory and file names made of characters that are legal in file names but special in URIs, glob patterns,
+// format strings or shells. Not the "safe alphabet"; the unchanged tool handles them, so they are fair game.
+var oddNames = []string{"run#7", "out[v1]", "a b", "x%41y", "q=1&y", "50%s", "it's", "näme", "tab\\x", "**"}
+
 func normVal(v any) any {
 	switch x := v.(type) {
 	case []byte:
@@ -208,7 +218,7 @@ func normVal(v any) any {
 }
 
 func readTable(path string, t *TableSpec) (*ReadTable, error) {
-	db, err := sql.Open("sqlite3", "file:"+path+"?mode=ro")
+	db, err := sql.Open("sqlite3", sqliteURI(path)+"?mode=ro")
 	if err != nil {
 		return nil, err
 	}
@@ -321,7 +331,7 @@ func readTable(path string, t *TableSpec) (*ReadTable, error) {
 
 // listTables: names of all user tables (no sqlite_, gpkg_, rtree_ tables)
 func listTables(path string) ([]string, error) {
-	db, err := sql.Open("sqlite3", "file:"+path+"?mode=ro")
+	db, err := sql.Open("sqlite3", sqliteURI(path)+"?mode=ro")
 	if err != nil {
 		return nil, err
 	}
